@@ -434,6 +434,11 @@ Theorem C09_mark_complete_bucket_ok : forall cfg fs d,
 Proof. exact mark_complete_bucket_ok. Qed.
 Print Assumptions C09_mark_complete_bucket_ok.
 
+(* the only status the bucket step overlooks is 409 (list re-translated from the source) *)
+Theorem C09_mark_complete : forall cfg fs, mark_complete cfg fs = spec_mark_complete cfg fs.
+Proof. exact mark_complete_is_spec. Qed.
+Print Assumptions C09_mark_complete.
+
 Theorem C09_create_bucket_409 : forall cfg rest, memZ 409 (c_forcelist cfg) = false ->
   request cfg PListing O s3_create_bucket_ignored (Status 409 :: rest) = (Ok O, 1%nat).
 Proof. exact create_bucket_409. Qed.
@@ -453,3 +458,21 @@ Example C09_other_sites_examples :
   mark_complete cfg [Status 400] = (Err Unavail, 1%nat, 0%nat).
 Proof. vm_compute. repeat split; reflexivity. Qed.
 Print Assumptions C09_other_sites_examples.
+
+(* ---- the `retries` argument of S3ChunkStore: one number stands for connect AND read retries, the status budget is 5,
+   urllib3's total is 10, the forcelist is _DEFAULT_SERVER_GLITCHES; the default store is retries = 2 ---- *)
+Theorem C09_retries_argument : forall n, 0 <= n ->
+  let cfg := store_config (RInt n) in
+  r_read (c_retry cfg) = Some n /\ r_connect (c_retry cfg) = Some n /\ r_status (c_retry cfg) = Some 5 /\
+  r_total (c_retry cfg) = Some 10 /\ c_forcelist cfg = [500; 502; 503; 504] /\ wf_retry (c_retry cfg) = true.
+Proof. exact store_config_int. Qed.
+Print Assumptions C09_retries_argument.
+
+(* what a user of S3ChunkStore(url) can rely on: the chunk arrives after ANY run of transient faults with at most 2
+   read faults (cut / reset / stalled bodies, lost answers) and at most 5 statuses out of 500/502/503/504 *)
+Theorem C09_default_store_budget : forall segs pre,
+  forallb (transient [500; 502; 503; 504] (total segs)) pre = true ->
+  count (read_fault (total segs)) pre <= 2 -> count (status_fault [500; 502; 503; 504]) pre <= 5 ->
+  request default_store (PChunk segs) (total segs) [] pre = (Ok (total segs), S (List.length pre)).
+Proof. exact default_store_budget. Qed.
+Print Assumptions C09_default_store_budget.
